@@ -1,5 +1,6 @@
 SPECIFICATION Spec
 CONSTANTS
+  Deep = FALSE
   Mode = "trees"
 INVARIANTS Emit
 CHECK_DEADLOCK FALSE
